@@ -31,7 +31,7 @@ func TestCheck(t *testing.T) {
 	case "C07":
 		exitCode = runC07(run)
 	case "C11", "C19":
-		exitCode = runGarbage(run, prop)
+		exitCode = runGarbage(t, run, prop)
 	case "C17":
 		exitCode = runC17(run)
 	case "C05":
